@@ -369,6 +369,7 @@ def run(ctx, rep):
     r4(ctx, rep)
     r5(ctx, rep)
     r6(ctx, rep)
+    r7(ctx, rep)
 
 
 def r4(ctx, rep):
@@ -555,3 +556,20 @@ def r6(ctx, rep):
                         f'{notation} notation, tableau writer created with {sorted(given_all)}: the lexical writer ends up with opts {lwopts!r} (not passed on: {sorted(missing)}), '
                         f'string table fetched with {fetched[-1:] or "nothing"}, error {err}: the sentences are then not written under the options asked for')
     rep.floor('C19.R6', 'notations', n, 2)
+
+
+def r7(ctx, rep):
+    """Every writer renders `tab.tree`.  That the tree has one leaf per branch whose root-to-leaf node path is that branch -- for
+    two-way, three-way and nested forks, open and closed branches -- is the Tree.make fold of C16.R5 (sa.treefold), imported:
+    a branch missing from the tree is missing from every rendering."""
+    from .. import treefold
+    m = ctx.m
+    R7 = rep.rule('C19.R7', 'what is rendered is the whole tableau: Tableau.Tree.make folded over mock tableaux (two-way, three-way, nested forks; open / closed '
+                            'branches) gives the tree computed from the branches -- one leaf per branch, every node on its path (C16.R5)')
+    res, cons = treefold.fold_tree(m)
+    rep.consult(*cons)
+    for ok, case, detail in res:
+        rep.instance(R7, ok=ok, nontrivial=('tree', case))
+        if not ok:
+            rep.finding(R7, f'C19.R7/tree/{case}', cons[0].split(' ')[0], 'Tableau.Tree.make', f'{case}: {detail}')
+    rep.floor('C19.R7', 'tree scenarios', len(res), 6)
